@@ -47,5 +47,11 @@ CLAIMED["C02"] = dict(
     note="Trusted: C10.order for the meaning of `<=`; C06.concat for dumps(); name resolution of sa/model.py; the list of real unpickler entry points (UNPICKLERS).",
 )
 
+CLAIMED["C12"] = dict(
+    technique="typestate / ownership analysis over the four hooked bindings: transitive write sets per lifecycle operation, provenance of each written value, post-dominance of restores in __exit__, single-owner scan",
+    level="Decides the restore discipline for every history: everything an arming operation may rebind is restored by remove_hook from import-time captures of the originals; the context manager snapshots on entry and restores on every exit path (normal or exceptional, never swallowing the exception) every binding that any lifecycle operation can change while it is open; each armed binding is a checker (C02/C07) and the checked loader's real load stays behind the safe-ML hook; nobody else rebinds the entry points. Whether a probe load of a flagged pickle is refused while armed is C02/C04/C07.",
+    note="Trusted: pickle.load is _pickle.load in CPython (checked in Lib/pickle.py's source); the operation alphabet of the property (enter = `with fickling.check_safety():`).",
+)
+
 _NOT_YET = "checker not built yet in this session (planned per DESIGN.md section 3); nothing is claimed until it exists"
 NOT_APPLICABLE = {p: _NOT_YET for p in [f"C{i:02d}" for i in range(1, 20)]}
